@@ -448,7 +448,21 @@ class Evaluator:
                 if cand.node is st:
                     q = cand
             env.set(st.name, FuncV(q, st, env, fi.module if fi else env.module, st.name))
-        elif isinstance(st, (ast.Pass, ast.Import, ast.ImportFrom, ast.Global, ast.Nonlocal, ast.Assert, ast.ClassDef)):
+        elif isinstance(st, ast.ImportFrom):
+            for al in st.names:
+                if st.level == 0:
+                    env.set(al.asname or al.name, ExtRef((st.module or "") + "." + al.name))
+                else:
+                    src = st.module or ""
+                    q = f"{src}:{al.name}"
+                    if q in self.P.functions:
+                        env.set(al.asname or al.name, FuncV(self.P.functions[q], self.P.functions[q].node, None, src))
+                    else:
+                        env.set(al.asname or al.name, ExtRef("pkg:" + (src + "." if src else "") + al.name))
+        elif isinstance(st, ast.Import):
+            for al in st.names:
+                env.set(al.asname or al.name.split(".")[0], ExtRef(al.name if al.asname else al.name.split(".")[0]))
+        elif isinstance(st, (ast.Pass, ast.Global, ast.Nonlocal, ast.Assert, ast.ClassDef)):
             pass
         elif isinstance(st, ast.Break):
             raise _Break()
@@ -739,6 +753,11 @@ class Evaluator:
         if isinstance(base, (dict, list, tuple, str, set, frozenset, SliceV, Text)) or base is None or isinstance(base, (int, float, Sym, Lin, FuncV)):
             if isinstance(base, SliceV) and attr in ("start", "stop", "step"):
                 return {"start": base.lo, "stop": base.hi, "step": base.step}[attr]
+            py = {dict: dict, list: list, tuple: tuple, str: str, set: set, frozenset: frozenset}.get(type(base))
+            if py is not None and not hasattr(py, attr):
+                raise Raised("AttributeError", node, f"'{py.__name__}' object has no attribute '{attr}'")
+            if base is None:
+                raise Raised("AttributeError", node, f"'NoneType' object has no attribute '{attr}'")
             return BoundMethod(base, attr)
         if isinstance(base, (type({}.keys()), type({}.values()), type({}.items()))):
             return BoundMethod(base, attr)
